@@ -1,3 +1,4 @@
+import Harper.Driver.Leaves
 import Harper.Driver.Typst
 import Harper.Driver.Rules
 import Harper.Driver.Markdown
@@ -106,7 +107,11 @@ def handlers : List (String × (List String → String)) := [
   ("typst", Typst.handleTypst),
   ("typok", Typst.handleTypOk),
   ("htmlclamp", Typst.handleHtmlClamp),
-  ("htmlclampt", Typst.handleHtmlClampT)
+  ("htmlclampt", Typst.handleHtmlClampT),
+  ("leafm", Leaves.handleLeafM),
+  ("mphrase", Leaves.handleMPhrase),
+  ("pnoun", Leaves.handlePNoun),
+  ("mergel", Leaves.handleMergeL)
 ]
 
 def handle (line : String) : String :=
